@@ -10,7 +10,6 @@ core, ElementTree, the opener, the bytes behind a handle, kpsewhich, the environ
 -/
 import PybtexModel.Lemmas.IO
 import PybtexModel.Gen.Plugins
-import PybtexModel.Gen.PluginClasses
 
 namespace Pybtex.Props
 open Pybtex Pybtex.IO
@@ -155,9 +154,8 @@ theorem C17_write_entry_points {Db E H S : Type}
       | ok s =>
         simp only [hw, Except.ok.injEq] at hb
         subst hb
-        refine ⟨_, ?_⟩
+        refine ⟨.tryOpen p ['w'] (some encName), ?_⟩
         simp [writeFile, WriterKind.unicodeIO, openUnicode, pyOpen, openOrCreate, hopen, writeStream, hw]
-        rfl
     · intro st payload hp
       simp [writeFile, WriterKind.unicodeIO, openUnicode, pyOpen, hp]
     · intro e he
@@ -196,9 +194,8 @@ theorem C17_write_entry_points {Db E H S : Type}
       | ok b' =>
         simp only [hw, Except.ok.injEq] at hb
         subst hb
-        refine ⟨_, ?_⟩
+        refine ⟨.tryOpen p ['w', 'b'] none, ?_⟩
         simp [writeFile, WriterKind.unicodeIO, openRaw, pyOpen, openOrCreate, hopen, writeStream, hw]
-        rfl
     · intro st payload hp
       simp [writeFile, WriterKind.unicodeIO, openRaw, pyOpen, hp]
     · intro e he
@@ -240,10 +237,9 @@ theorem C17_write_entry_points_bibtexml {Db E H S : Type}
   · simp [toStr, hbody, hutf8]
   · simp only [toBytes, writeStream, hbody]
     rw [List.append_assoc, ← hshape]
-  · simp only [writeFile, WriterKind.unicodeIO, openRaw, pyOpen, openOrCreate, hopen, writeStream, hbody]
-    simp only [Bool.false_eq_true, if_false]
+  · simp only [writeFile, WriterKind.unicodeIO, openRaw, pyOpen, openOrCreate, hopen, writeStream, hbody,
+      Bool.false_eq_true, if_false, mode_wb, if_true]
     rw [List.append_assoc, ← hshape]
-    simp [String.toList, List.contains]
 
 theorem C17_write_entry_points_bibtexml_nonvacuous :
     let d := "<f>café</f>".toList
@@ -298,17 +294,15 @@ theorem C17_suffix_eq_name_nonvacuous :
   decide +kernel
 
 /-- The regenerated tables are well formed: no (group, name) twice, every group is a base group of
-`_DEFAULT_PLUGINS` or its `.aliases` / `.suffixes` companion, every default plug-in exists, what
-`importlib.metadata` reports is what /repo/setup.py declares, and every installed reader / writer class
-is wired in one of the ways the model knows (`unicode_io` + the set of overridden entry points). -/
+`_DEFAULT_PLUGINS` or its `.aliases` / `.suffixes` companion, every default plug-in exists, and what
+`importlib.metadata` reports is what /repo/setup.py declares.  (How the installed reader / writer classes
+are wired is checked in `Props/WiringC17.lean`.) -/
 theorem C17_tables_wf :
     keysNodup Gen.installedPlugins = true ∧
     groupsKnown Gen.installedPlugins Gen.defaultPlugins = true ∧
     defaultsExist Gen.installedPlugins Gen.defaultPlugins = true ∧
-    Gen.installedPlugins = Gen.declaredPlugins ∧
-    readerKindsKnown Gen.readerClasses = true ∧
-    writerKindsKnown Gen.writerClasses = true := by
-  refine ⟨by decide +kernel, by decide +kernel, by decide +kernel, by decide +kernel, by decide +kernel, by decide +kernel⟩
+    Gen.installedPlugins = Gen.declaredPlugins := by
+  refine ⟨by decide +kernel, by decide +kernel, by decide +kernel, by decide +kernel⟩
 
 /-! ## the run-time registry -/
 
@@ -526,11 +520,11 @@ theorem C17_open_faults_nonvacuous :
     pyOpen (S := Unit) Toy.env (.path "a.bbl".toList) "w".toList none
       = ([.tryOpen "a.bbl".toList "w".toList none, .tryOpen "/out/a.bbl".toList "w".toList none],
          .ok (.handle "/out/a.bbl".toList)) ∧
-    pyOpen (S := Unit) { Toy.env with environ := [("TEXMFOUTPUT".toList, "/ro".toList)] } (.path "a.bbl".toList) "w".toList none
+    pyOpen (S := Unit) Toy.envRO (.path "a.bbl".toList) "w".toList none
       = ([.tryOpen "a.bbl".toList "w".toList none, .tryOpen "/ro/a.bbl".toList "w".toList none],
          .error ⟨"a.bbl".toList, "Permission denied".toList⟩) ∧
     (OpenErr.message ⟨"a.bbl".toList, "Permission denied".toList⟩) = "unable to open a.bbl. Permission denied".toList := by
-  decide +kernel
+  refine ⟨by decide +kernel, by decide +kernel, by decide +kernel, by decide +kernel, by decide +kernel, by decide +kernel⟩
 
 /-- The fall-back path is the directory, a slash, the name — for a relative name and a directory that
 does not already end in a slash; an absolute name is retried as it is (as `posixpath.join` has it). -/
